@@ -92,6 +92,12 @@ def variable_lists():
     out.append(('floats6+mem_u32', [('toc', 'fill%d.x%d' % (i // 30, i), 'float') for i in (6, 14, 22, 30, 38, 46)]
                 + [('mem', 'my', 'uint32_t', 'uint32_t', 0x200)]))
     out.append(('mem7float', [('mem', 'f%d' % i, 'float', 'float', 0x300 + 4 * i) for i in range(7)]))
+    # the payload is made of the *fetch* types: stored and fetch type of different sizes on both sides of the limit
+    out.append(('mem7:u8_fetched_as_float', [('mem', 'g%d' % i, 'float', 'uint8_t', 0x600 + i) for i in range(7)]))      # 28
+    out.append(('mem7:float_fetched_as_fp16', [('mem', 'g%d' % i, 'FP16', 'float', 0x700 + 4 * i) for i in range(7)]))   # 14
+    out.append(('mem26:u32_fetched_as_u8', [('mem', 'g%d' % i, 'uint8_t', 'uint32_t', 0x800 + 4 * i) for i in range(26)]))  # 26
+    out.append(('mem13:u8_fetched_as_u16', [('mem', 'g%d' % i, 'uint16_t', 'uint8_t', 0x900 + i) for i in range(13)]))   # 26
+    out.append(('mem14:u8_fetched_as_u16', [('mem', 'g%d' % i, 'uint16_t', 'uint8_t', 0xa00 + i) for i in range(14)]))   # 28
     # every sequence of table ('T') and raw-memory ('M') one-byte variables up to a length: every way the 3-byte and
     # 5-byte records can fall on the 30-byte message boundary
     for L in range(1, (13 if _MIX_DEEP else 11)):
@@ -236,8 +242,8 @@ def part_accept(job):
                 p.violation('create:start_message', 'list %s: after the create ack the library sent %r, expected start(id, period)'
                             % (lname, [a.hex() for a in after]), rp)
             # ---- data decode ----
-            if exp_vars:
-                _check_decode(p, rp, lname, conf, cf, link, exp_vars, dev)
+            if exp_vars is not None:
+                _check_decode(p, rp, lname, conf, cf, link, exp_vars, dev)     # an empty block sends time stamps only
             # clean up so that block / variable limits are never reached
             conf.delete()
             seqcf.pump(cf)
@@ -309,7 +315,7 @@ def _check_decode(p, rp, lname, conf, cf, link, exp_vars, dev):
     got = []
     held = []       # the dictionaries as delivered (a consumer such as SyncLogger queues them) with their content at delivery
     conf.data_received_cb.add_callback(lambda ts, data, c: (got.append((ts, dict(data), c)), held.append((ts, data, dict(data)))))
-    rounds = max(len(_EXTREMES[v[2]]) for v in exp_vars)
+    rounds = max([len(_EXTREMES[v[2]]) for v in exp_vars] + [4])
     names = [v[4] for v in exp_vars]
     if len(set(names)) != len(names):
         return          # duplicate names in one configuration: the value dictionary cannot hold both (not demanded)
